@@ -357,7 +357,51 @@ func installCompleteness(p *Program, id string, root *ssa.Function) []Obligation
 	} else {
 		comp.Verdict, comp.Detail = Discharged, "boundary moved whenever the file is published; indices, configuration and log reset whenever the state machine is restored on a running node"
 	}
-	return append(out, comp)
+	out = append(out, comp)
+	return append(out, publishOwner(p, id)...)
+}
+
+// publishOwner: SnapshotFile.Close on a file still in its temporary directory is the publish step (sync, rename into
+// place). The file an installation is writing (Raft.snapshot) may therefore be closed only by the handler, where IS-DONE
+// ties the Close to the last chunk; every other owner of the field abandons the file (Discard) or leaves it alone.
+func publishOwner(p *Program, id string) []Obligation {
+	fld := p.Field("Raft.snapshot")
+	if fld == nil {
+		return missing(id, "Raft.snapshot")
+	}
+	ob := Obligation{Rule: id, Construct: "PUBLISH-OWNER only (*Raft).InstallSnapshot closes the snapshot file an installation is writing", Verdict: Discharged}
+	n := 0
+	for _, fn := range p.SortedFuncs() {
+		for _, b := range fn.Blocks {
+			for _, in := range b.Instrs {
+				iface, m, c := invokeOf(in)
+				if iface != "SnapshotFile" || (m != "Close" && m != "Discard") {
+					continue
+				}
+				u, ok := c.Value.(*ssa.UnOp)
+				if !ok {
+					continue
+				}
+				fa, ok := u.X.(*ssa.FieldAddr)
+				if !ok || fieldOf(fa.X.Type(), fa.Field) != fld {
+					continue
+				}
+				n++
+				if m == "Close" && FuncName(fn) != "(*Raft).InstallSnapshot" {
+					ob.Verdict = Violated
+					ob.Pos = p.InstrPos(in)
+					ob.Detail = FuncName(fn) + " closes r.snapshot: Close publishes the file (rename out of the temporary directory), so a partially received snapshot becomes the node's newest snapshot — a restart restores the state machine from a truncated file (or fails to start) and the log below its label is discarded"
+				}
+			}
+		}
+	}
+	if ob.Verdict == Discharged {
+		ob.Detail = fmt.Sprintf("%d Close/Discard call(s) on Raft.snapshot; every Close is in the handler", n)
+		if n < 2 {
+			ob.Verdict, ob.Detail = AnchorLost, "fewer than 2 Close/Discard calls on Raft.snapshot found"
+		}
+	}
+	return []Obligation{ob}
 }
 
 // ruleSnapLabel: C10 SNAP-LABEL (takeSnapshot) and C11 SNAP-FALLBACK, C15 SNAP-HANDSHAKE, C04 MATCH-PROV (sender side).
